@@ -18,10 +18,11 @@ type C10ElemBase struct {
 	rev   int
 	Name  string
 	Owner string
+	tail  int // ... and one after them
 }
 
 type c10elem struct {
-	N      string
+	N      string `dials:"n" dialsalias:"nn"` // an aliased leaf inside a slice element
 	hidden int // element structs are not pointerified: unexported fields survive into the transformer
 	V      int8
 	PS     *struct{ Max int8 }
